@@ -13,7 +13,7 @@ Definition sepP (t1 : bstr) (li : bool) (rest : bstr) : Prop :=
   | _ :: _, b :: r' =>
     let a := last t1 0 in
     (is_ident_part a = true -> is_ident_part b = false)
-    /\ (li = true -> b = 46 -> match r' with d :: _ => is_digit d = false | [] => True end)
+    /\ (li = true -> is_digit a = true -> b = 46 -> match r' with d :: _ => is_digit d = false | [] => True end)
     /\ (a = 46 -> is_digit b = false)
     /\ glue a b = false
     /\ (is_space a = true \/ a = 168 \/ a = 169 -> incr_next rest = false)
@@ -147,7 +147,8 @@ Proof.
         pose proof (lex_skip_le _ _ _ _ E) as Hn.
         assert (En' : num_span (c :: (r ++ b :: r')) = Some (S n)).
         { change (c :: r ++ b :: r') with ((c :: r) ++ b :: r'). apply num_span_app; [discriminate|exact Edg|exact En|exact Sw| |exact Sd].
-          intro Hall. apply Si. pose proof (num_span_alldigits _ _ Hall En) as Hk. cbn [length] in Hk. injection Hk as ->.
+          intro Hall. apply Si; [|apply last_forallb; [discriminate|exact Hall]].
+          pose proof (num_span_alldigits _ _ Hall En) as Hk. cbn [length] in Hk. injection Hk as ->.
           rewrite lex_skip_all in E. injection E as <-.
           change (take (S (length r)) (c :: r)) with (take (length (c :: r)) (c :: r)). rewrite take_all. exact Hall. }
         rewrite En'. change (c :: r ++ b :: r') with ((c :: r) ++ b :: r'). rewrite take_app_le by (cbn [length]; lia).
